@@ -591,6 +591,11 @@ def index_lookup(data, items):
 
     # np.searchsorted doesn't work on mixed types in Python3
 
+    # n-dimensional input (e.g. a view of an n-d categorical array) is looked
+    # up element-wise and the result is given the shape of the input
+    shape = np.shape(data)
+    if len(shape) != 1:
+        data = np.asarray(data).ravel()
     ndata, ncat = len(data), len(items)
     data = pd.DataFrame({'data': data, 'row': np.arange(ndata)})
     cats = pd.DataFrame({'items': items,
@@ -599,6 +604,8 @@ def index_lookup(data, items):
     m = pd.merge(data, cats, left_on='data', right_on='items')
     result = np.zeros(ndata, dtype=float) * np.nan
     result[np.array(m.row)] = m.cat_row
+    if len(shape) != 1:
+        result = result.reshape(shape)
     return result
 
 
